@@ -533,6 +533,76 @@ fn scope_exclusion_probe(args: &Args, impl_failures: &mut Vec<Value>) -> Value {
     Value::Object(report)
 }
 
+/// Mutual exclusion of the writers of the RRDP files (scheduler task `RrdpUpdateIfNeeded`, admin call "session
+/// reset"): the first writer is held at its first file-system step inside the RRDP directory; the second writer
+/// arrives meanwhile. The second may not touch the directory before the first has returned, and afterwards the files
+/// on disk must be those of the server's state (as in one of the two serial orders).
+struct RrdpPause { dir: String, first: Mutex<Option<std::thread::ThreadId>>, slept: AtomicBool, first_inside: AtomicBool, first_done: AtomicBool, overlap: AtomicBool }
+impl Probe for RrdpPause {
+    fn on_event(&self, ev: &Event) -> bool {
+        if !ev.kind.starts_with("fs-") || !ev.ns.contains(&self.dir) { return true }
+        let me = std::thread::current().id();
+        if *self.first.lock().unwrap() == Some(me) {
+            if !self.slept.swap(true, Ordering::SeqCst) { self.first_inside.store(true, Ordering::SeqCst); std::thread::sleep(Duration::from_millis(600)); }
+        } else if self.first_inside.load(Ordering::SeqCst) && !self.first_done.load(Ordering::SeqCst) {
+            self.overlap.store(true, Ordering::SeqCst);
+        }
+        true
+    }
+}
+
+fn rrdp_exclusion_probe(args: &Args, impl_failures: &mut Vec<Value>) -> Value {
+    let dir = args.out.join("rrdpprobe");
+    let _ = std::fs::remove_dir_all(&dir);
+    let mut opts = SysOpts::new(&dir);
+    opts.mem_seed = args.seed.wrapping_add(7717);
+    let sys = Arc::new(Sys::open(opts));
+    sys.bootstrap().expect("bootstrap");
+    for step in setup_steps() { let _ = step(&sys); }
+    let _ = sys.pump(200, 0);
+    let rrdp_dir = dir.join("repo").join("rrdp").display().to_string();
+    let mut report = serde_json::Map::new();
+    for (round, first_is_update) in [(0u64, true), (1, false), (2, true)] {
+        // something staged, so that an RRDP update has work to do
+        let roa = format!("10.0.{}.0/24 => 64999", 200 + round);
+        let staged = sys.routes_update("a", &[&roa], &[]).is_ok() && sys.sync_repo("a").is_ok();
+        let probe = Arc::new(RrdpPause { dir: rrdp_dir.clone(), first: Mutex::new(None), slept: AtomicBool::new(false), first_inside: AtomicBool::new(false), first_done: AtomicBool::new(false), overlap: AtomicBool::new(false) });
+        set_probe(Some(probe.clone()));
+        let update = |sys: &Sys| sys.krill.repo_manager().update_rrdp_if_needed().is_ok();
+        let reset = |sys: &Sys| sys.krill.repo_manager().rrdp_session_reset().is_ok();
+        let h1 = { let (sys, probe) = (sys.clone(), probe.clone()); std::thread::spawn(move || {
+            *probe.first.lock().unwrap() = Some(std::thread::current().id());
+            let ok = if first_is_update { update(&sys) } else { reset(&sys) };
+            probe.first_done.store(true, Ordering::SeqCst);
+            ok
+        }) };
+        let t0 = std::time::Instant::now();
+        while !probe.first_inside.load(Ordering::SeqCst) && !probe.first_done.load(Ordering::SeqCst) && t0.elapsed() < Duration::from_secs(20) { std::thread::sleep(Duration::from_millis(5)); }
+        let reached = probe.first_inside.load(Ordering::SeqCst);
+        let h2 = { let sys = sys.clone(); std::thread::spawn(move || if first_is_update { reset(&sys) } else { update(&sys) }) };
+        let ok1 = h1.join().unwrap_or(false);
+        let ok2 = h2.join().unwrap_or(false);
+        set_probe(None);
+        let _ = sys.pump(100, 2000);
+        let overlap = probe.overlap.load(Ordering::SeqCst);
+        let disk_view = rrdp_on_disk(&sys);
+        let stats = sys.krill.repo_manager().repo_stats().ok().map(|st| serde_json::to_value(&st).unwrap());
+        let content = repo_content(&sys);
+        let files_ok = match (&disk_view, &stats) {
+            (Some((session, serial, hash_ok, files)), Some(st)) => st["session"].as_str() == Some(session.as_str()) && st["serial"].as_u64() == Some(*serial) && *hash_ok && *files == content,
+            _ => false,
+        };
+        let name = format!("{}_held_then_{}", if first_is_update { "update" } else { "session_reset" }, if first_is_update { "session_reset" } else { "update" });
+        report.insert(format!("{round}:{name}"), json!({"change_staged": staged, "first_writer_reached_the_directory": reached, "first_ok": ok1, "second_ok": ok2, "second_writer_inside_while_first_held": overlap, "files_match_server_state": files_ok}));
+        if overlap || !files_ok || !ok1 || !ok2 {
+            impl_failures.push(json!({"index": null, "class": {"rrdp_writers_not_exclusive": true, "order": name}, "what": format!("RRDP writers {name}: second writer inside the RRDP directory while the first was held there: {overlap}; both calls succeeded: {}; files on disk match the server's session / serial / content afterwards: {files_ok}", ok1 && ok2)}));
+        }
+    }
+    drop(sys);
+    let _ = std::fs::remove_dir_all(&dir);
+    Value::Object(report)
+}
+
 fn main() {
     let args = Args::parse("conc");
     let n_runs = args.get_u64("runs", if args.thorough() { 200 } else { 12 });
@@ -555,8 +625,10 @@ fn main() {
     }
     w.flush();
     let lock_probe = scope_exclusion_probe(&args, &mut impl_failures);
+    let stuck = impl_failures.iter().any(|f| f["class"]["deadlock_or_timeout"] == true);
+    let rrdp_probe = if stuck { json!("skipped after a deadlock") } else { rrdp_exclusion_probe(&args, &mut impl_failures) };
     write_json(&args.out.join("stats.json"), &json!({
-        "scenario": "conc", "scope_exclusion_probe": lock_probe, "seed": args.seed, "tier": args.tier, "runs": n_runs,
+        "scenario": "conc", "scope_exclusion_probe": lock_probe, "rrdp_writer_exclusion_probe": rrdp_probe, "seed": args.seed, "tier": args.tier, "runs": n_runs,
         "evaluations": w.total, "distinct_nontrivial": distinct.len(),
         "rule": "each run: TA->a->{b->c,d} hierarchy on memory (2/3) or disk (1/3) storage, then 2-6 worker threads x 3-8 operations (unique ROA additions, rejected ROA additions, parent syncs, repository syncs, key roll init/activate, re-publication) plus a scheduler stand-in thread running queued tasks, with seed-derived yields/sleeps at every probe point; the probe records lock events, mutations and cache writes per thread; one case = the global lock-event order, the harness-computed rank certificate, the entity-level trace and the observable conclusions; non-trivial = more than one thread took locks; distinct = distinct (workers, lock events, trace length)",
         "probe_event_distribution": stats, "samples": samples, "impl_failures": impl_failures,
